@@ -279,6 +279,106 @@ def auto_replay(fn):
     return replay
 
 
+class PinnedCtx(PathCtx):
+    """the harness context with every input pinned to a concrete value: one path of the instrumented package"""
+
+    def __init__(self, job, inputs):
+        super().__init__(job)
+        self.pinned = inputs
+        self.failed = {}
+
+    def bytes(self, name, n):
+        v = self.pinned.get(name)
+        v = bytes(v) if isinstance(v, (bytes, bytearray)) else b''
+        v = (v + b'\x00' * n)[:n]
+        self.e.inputs[name] = v
+        return v
+
+    def int(self, name, lo=None, hi=None):
+        v = self.pinned.get(name)
+        if not isinstance(v, int) or isinstance(v, bool):
+            v = lo if lo is not None else 0
+        self.e.inputs[name] = v
+        return v
+
+    def bool(self, name):
+        v = bool(self.pinned.get(name, False))
+        self.e.inputs[name] = v
+        return v
+
+    def byte(self, name):
+        v = self.pinned.get(name, 0)
+        v = v if isinstance(v, int) else 0
+        self.e.inputs[name] = v
+        return v
+
+    def check(self, name, cond, **info):
+        if isinstance(cond, SymBool) or z3.is_expr(cond):
+            t = to_z3bool(cond)
+            bad = self.e._check(z3.Not(t)) != z3.unsat
+        else:
+            bad = not bool(cond)
+        if bad:
+            self.failed.setdefault(name, {k: repr(v)[:160] for k, v in info.items()})
+
+
+def pinned_replay(spec_name, module, concrete=None):
+    """replay for harnesses whose reference only exists symbolically: (1) the harness function is re-run on the instrumented
+    package with every input pinned to the counterexample's value - the obligation must fail again; (2) the observables of that
+    concrete run must equal those of the real package (`concrete`), so the failing behaviour is the real code's"""
+    def replay(inputs, params, obligation):
+        import importlib
+        mod = importlib.import_module(module)
+        spec = next(s for s in mod.HARNESSES if s.name == spec_name)
+        outer = core._ENGINE
+        saved_abs = dict(core.ABSTRACT)
+        try:
+            e2 = Engine()
+            job = Job(spec, params, 'quick', 0)
+            pkg = package(spec.merge)
+            res = {}
+
+            def fn():
+                stubs.CONFIG.reset()
+                for _k in core.ABSTRACT:
+                    core.ABSTRACT[_k] = False
+                c = PinnedCtx(job, inputs)
+                res['c'] = c
+                spec.fn(c, pkg, **params)
+
+            def on_path(pr):
+                c = res['c']
+                res.setdefault('paths', []).append((dict(c.failed), pr.poison, c.obs and model_value(None, c.obs) if False else c.obs))
+            e2.explore(fn, on_path)
+            paths = res.get('paths', [])
+            failing = [p for p in paths if obligation in p[0] and not p[1]]
+            out = {'paths': len(paths), 'fails_when_pinned': bool(failing)}
+            if not failing:
+                out['reproduced'] = False
+                return out
+            if concrete is not None:
+                obs = failing[0][2]
+                if obs is None:
+                    # no observables on this path (stub / summary involved): the pinned run is the evidence
+                    out['reproduced'] = True
+                    out['real_observables'] = 'not compared (path involves an environment stub)'
+                    return out
+                got = concrete(inputs, params)
+                want = {k: jsonable(v) for k, v in obs.items()}
+                diff = {k: (want[k], jsonable(got.get(k, '<missing>'))) for k in want if want[k] != jsonable(got.get(k, '<missing>'))}
+                out['real_matches_instrumented'] = not diff
+                out['reproduced'] = not diff
+                if diff:
+                    out['diff'] = diff
+                return out
+            out['reproduced'] = True
+            return out
+        finally:
+            core._ENGINE = outer
+            core.ABSTRACT.update(saved_abs)
+    return replay
+
+
 class Job:
     """one harness instance (harness function + parameters) explored exhaustively in one process"""
 
